@@ -230,7 +230,13 @@ func seqOnAllPaths(fn *ssa.Function, consts map[ssa.Value]*ssa.Const, sink func(
 		} else {
 			prev := steps[i-1]
 			an.Instrs(fn, func(in ssa.Instruction) {
-				if prev.is(in) {
+				if !prev.is(in) {
+					return
+				}
+				// only instances that can execute under the path constraints (e.g. deleted == true)
+				target := in
+				rq := &an.PathQ{Fn: fn, Consts: consts, StartEntry: true, Sink: func(x ssa.Instruction, _ *an.PathState) bool { return x == target }}
+				if _, reach := rq.Find(); reach || len(consts) == 0 {
 					q.StartAfter = append(q.StartAfter, in)
 				}
 			})
@@ -338,7 +344,13 @@ func seqFromEdges(fn *ssa.Function, start []an.Edge, consts map[ssa.Value]*ssa.C
 		} else {
 			prev := steps[i-1]
 			an.Instrs(fn, func(in ssa.Instruction) {
-				if prev.is(in) {
+				if !prev.is(in) {
+					return
+				}
+				// only instances that can execute under the path constraints (e.g. deleted == true)
+				target := in
+				rq := &an.PathQ{Fn: fn, Consts: consts, StartEntry: true, Sink: func(x ssa.Instruction, _ *an.PathState) bool { return x == target }}
+				if _, reach := rq.Find(); reach || len(consts) == 0 {
 					q.StartAfter = append(q.StartAfter, in)
 				}
 			})
